@@ -534,3 +534,742 @@ Proof.
   rewrite run_script_rest_bind, rsr_expect_none.
   apply and_then_ext. intros _ rest2. apply rsr_send.
 Qed.
+
+(* ================================================================== *)
+(* 7. What a run of a conversation looks like                           *)
+
+Lemma expect_seq_step_nil m ok c : expect_seq ((m, ok) :: c) [] = ([m], Blocked, []).
+Proof. reflexivity. Qed.
+
+Lemma expect_seq_step_err m ok c s : expect_seq ((m, ok) :: c) (BusErr :: s) = ([m], BusFailed, s).
+Proof. reflexivity. Qed.
+
+Lemma expect_seq_step_rep m ok c x s :
+  expect_seq ((m, ok) :: c) (Rep x :: s)
+  = if ok x then (let '(tr, o, rest) := expect_seq c s in (m :: tr, o, rest))
+    else ([m], ProtoErr, s).
+Proof. cbn [expect_seq ask and_then]. destruct (ok x); reflexivity. Qed.
+
+Lemma expect_seq_shape c s tr o rest :
+  expect_seq c s = (tr, o, rest) ->
+  (exists more, map fst c = tr ++ more)
+  /\ (c <> [] -> tr <> [])
+  /\ o <> Crashed
+  /\ (o = Done tt -> tr = map fst c /\ s = firstn (length c) s ++ rest
+                     /\ (length c <= length s)%nat).
+Proof.
+  revert s tr o rest. induction c as [|[m ok] c IH]; intros s tr o rest H.
+  - rewrite expect_seq_nil in H. inversion H; subst. cbn.
+    repeat split; try congruence; try lia. exists []. reflexivity.
+  - destruct s as [|[|x] s].
+    + rewrite expect_seq_step_nil in H. inversion H; subst. cbn [map fst].
+      repeat split; try congruence. exists (map fst c). reflexivity.
+    + rewrite expect_seq_step_err in H. inversion H; subst. cbn [map fst].
+      repeat split; try congruence. exists (map fst c). reflexivity.
+    + rewrite expect_seq_step_rep in H. destruct (ok x).
+      * destruct (expect_seq c s) as [[tr' o'] rest'] eqn:E. inversion H; subst.
+        destruct (IH _ _ _ _ E) as ([more Hm] & _ & Hc & Hd). cbn [map fst].
+        repeat split; try congruence.
+        -- exists more. rewrite Hm. reflexivity.
+        -- destruct (Hd H0) as (Ht & _ & _). rewrite Ht. reflexivity.
+        -- destruct (Hd H0) as (_ & Hs & _). cbn [length firstn app]. f_equal. exact Hs.
+        -- destruct (Hd H0) as (_ & _ & Hl). cbn [length]. lia.
+      * inversion H; subst. cbn [map fst].
+        repeat split; try congruence. exists (map fst c). reflexivity.
+Qed.
+
+(* every message that was followed by another one (or by Done) got a reply of its class *)
+Lemma expect_seq_nth c s tr o rest i :
+  expect_seq c s = (tr, o, rest) ->
+  (S i < length tr)%nat \/ (o = Done tt /\ (i < length tr)%nat) ->
+  exists m ok x, nth_error c i = Some (m, ok) /\ nth_error tr i = Some m
+                 /\ nth_error s i = Some (Rep x) /\ ok x = true.
+Proof.
+  revert s tr o rest i. induction c as [|[m ok] c IH]; intros s tr o rest i H Hi.
+  - rewrite expect_seq_nil in H. inversion H; subst. cbn in Hi. lia.
+  - destruct s as [|[|x] s].
+    + rewrite expect_seq_step_nil in H. inversion H; subst. cbn in Hi.
+      destruct Hi as [Hi|[Hi _]]; [lia | discriminate].
+    + rewrite expect_seq_step_err in H. inversion H; subst. cbn in Hi.
+      destruct Hi as [Hi|[Hi _]]; [lia | discriminate].
+    + rewrite expect_seq_step_rep in H. destruct (ok x) eqn:Hok.
+      * destruct (expect_seq c s) as [[tr' o'] rest'] eqn:E. inversion H; subst.
+        destruct i as [|i].
+        -- exists m, ok, x. repeat split; try reflexivity; exact Hok.
+        -- cbn [length nth_error] in *. apply (IH _ _ _ _ _ E).
+           destruct Hi as [Hi|[Hi Hi']]; [left; lia | right; split; [exact Hi | lia]].
+      * inversion H; subst. cbn in Hi. destruct Hi as [Hi|[Hi _]]; [lia | discriminate].
+Qed.
+
+(* ================================================================== *)
+(* 8. One attempt, and the transfer loop (C09, C11)                     *)
+
+Section Transfer.
+Variables (a : N) (op : operation) (items : list (list N)).
+Local Notation A := (attempt_msgs a op items).
+
+Lemma attempt_msgs_length : length A = S (length (attempt_conv a op items)).
+Proof. rewrite attempt_msgs_conv, app_length, map_length. cbn [length]. lia. Qed.
+
+Lemma attempt_msgs_head : nth_error A 0 = Some (RequestOperation a op).
+Proof. reflexivity. Qed.
+
+Lemma attempt_msgs_last : nth_error A (length A - 1) = Some (QueryState a).
+Proof.
+  rewrite attempt_msgs_length. rewrite attempt_msgs_conv.
+  rewrite nth_error_app_r by (rewrite map_length; lia).
+  rewrite map_length. replace (_ - _)%nat with 0%nat by lia. reflexivity.
+Qed.
+
+(* the request is the first message of an attempt and occurs nowhere else in it *)
+Lemma attempt_msgs_req i a' op' :
+  nth_error A i = Some (RequestOperation a' op') -> i = 0%nat.
+Proof.
+  destruct i as [|i]; [reflexivity|]. unfold attempt_msgs. cbn [app nth_error].
+  intros H. exfalso. apply nth_error_In in H. apply in_app_or in H. destruct H as [H|H].
+  - apply in_concat in H. destruct H as (l & Hl & H). apply in_map_iff in Hl.
+    destruct Hl as (item & <- & _). unfold chunk_msgs in H. rewrite chunk_msgs_from_map in H.
+    apply in_map_iff in H. destruct H as (ic & H & _). discriminate.
+  - cbn in H. destruct H as [H|[H|[]]]; discriminate.
+Qed.
+
+Lemma attempt_run s t o rest :
+  chunk_guard items ->
+  run_script_rest (attempt a op items) s = (t, o, rest) ->
+  (exists more, A = t ++ more) /\ t <> [] /\ o <> Crashed
+  /\ ((2 <= length t)%nat -> nth_error s 0 = Some (Rep (Some (AckOperation a op))))
+  /\ (forall r, o = Done r ->
+        t = A /\ exists pre, s = pre ++ Rep r :: rest /\ S (length pre) = length A).
+Proof.
+  intros Hg H. rewrite rsr_attempt in H by exact Hg.
+  destruct (expect_seq (attempt_conv a op items) s) as [[t1 o1] r1] eqn:E.
+  destruct (expect_seq_shape _ _ _ _ _ E) as ([more Hm] & Hne & Hc & Hd).
+  assert (Hne1 : t1 <> []) by (apply Hne; discriminate).
+  assert (Hack : (2 <= length t1)%nat \/ o1 = Done tt ->
+                 nth_error s 0 = Some (Rep (Some (AckOperation a op)))).
+  { intros Hc2. destruct (expect_seq_nth _ _ _ _ _ 0%nat E) as (m & ok & x & H1 & H2 & H3 & H4).
+    - destruct Hc2 as [Hc2|Hc2]; [left; lia | right; split; [exact Hc2|]].
+      destruct t1; [congruence | cbn; lia].
+    - unfold attempt_conv in H1. cbn [nth_error] in H1. inversion H1; subst.
+      apply is_own_ack_true in H4. subst. exact H3. }
+  destruct o1 as [u| | | |]; cbn [and_then] in H.
+  - destruct u. destruct (Hd eq_refl) as (Ht1 & Hs & Hl).
+    assert (HA : A = t1 ++ [QueryState a]) by (rewrite attempt_msgs_conv, Ht1; reflexivity).
+    assert (Hack' := Hack (or_intror eq_refl)).
+    destruct r1 as [|[|x] r1]; cbn [ask] in H; inversion H; subst t o rest; clear H.
+    + repeat split; try congruence.
+      * exists []. rewrite app_nil_r. exact HA.
+      * destruct t1; discriminate.
+    + repeat split; try congruence.
+      * exists []. rewrite app_nil_r. exact HA.
+      * destruct t1; discriminate.
+    + repeat split; try congruence.
+      * exists []. rewrite app_nil_r. exact HA.
+      * destruct t1; discriminate.
+      * inversion H; subst r. exists (firstn (length (attempt_conv a op items)) s). split.
+        -- exact Hs.
+        -- rewrite firstn_length, attempt_msgs_length. lia.
+  - inversion H; subst t o rest. repeat split; try congruence.
+    + exists (more ++ [QueryState a]). rewrite attempt_msgs_conv, Hm, app_assoc. reflexivity.
+    + intros H2. apply Hack. left. exact H2.
+  - inversion H; subst t o rest. repeat split; try congruence.
+    + exists (more ++ [QueryState a]). rewrite attempt_msgs_conv, Hm, app_assoc. reflexivity.
+    + intros H2. apply Hack. left. exact H2.
+  - congruence.
+  - inversion H; subst t o rest. repeat split; try congruence.
+    + exists (more ++ [QueryState a]). rewrite attempt_msgs_conv, Hm, app_assoc. reflexivity.
+    + intros H2. apply Hack. left. exact H2.
+Qed.
+
+End Transfer.
+
+Opaque attempt_msgs.
+
+Section TransferLoop.
+Variables (a : N) (op : operation) (items : list (list N)) (su fa : state).
+Hypothesis Hg : chunk_guard items.
+Local Notation A := (attempt_msgs a op items).
+Local Notation ack := (Rep (Some (AckOperation a op))).
+Local Notation TL n := (transfer_loop n a op items su fa).
+
+Lemma rsr_verify_report st r rest :
+  run_script_rest (verify (Some (ReportState a st)) r) rest
+  = if is_own_report a st r then ([], Done tt, rest) else ([], ProtoErr, rest).
+Proof. unfold verify. rewrite omsg_eqb_report. destruct (is_own_report a st r); reflexivity. Qed.
+
+(* A run of the transfer loop is either its last attempt (incomplete, rejected or successful) or
+   a complete attempt whose query was answered by the own failure report, followed by a run
+   with one retry less on the rest of the script. *)
+Lemma transfer_loop_cases n s tr o rest :
+  run_script_rest (TL n) s = (tr, o, rest) ->
+  ( (exists more, A = tr ++ more) /\ tr <> [] /\ o <> Crashed
+    /\ ((2 <= length tr)%nat -> nth_error s 0 = Some ack)
+    /\ (o = Done tt ->
+        tr = A /\ nth_error s (length A - 1) = Some (Rep (Some (ReportState a su)))) )
+  \/ (exists n' pre s' tr',
+        n = S n' /\ s = pre ++ s' /\ length pre = length A /\ tr = A ++ tr'
+        /\ nth_error pre 0 = Some ack
+        /\ nth_error pre (length A - 1) = Some (Rep (Some (ReportState a fa)))
+        /\ run_script_rest (TL n') s' = (tr', o, rest)).
+Proof.
+  intros H.
+  assert (Hunf : run_script_rest (TL n) s
+    = and_then (run_script_rest (attempt a op items) s)
+        (fun r rest =>
+           run_script_rest
+             (match n with
+              | S n' => if omsg_eqb r (Some (ReportState a fa)) then TL n'
+                        else verify (Some (ReportState a su)) r
+              | O => verify (Some (ReportState a su)) r
+              end) rest)).
+  { destruct n; cbn [transfer_loop]; apply run_script_rest_bind. }
+  rewrite Hunf in H. clear Hunf.
+  destruct (run_script_rest (attempt a op items) s) as [[t1 o1] r1] eqn:E.
+  destruct (attempt_run _ _ _ _ _ _ _ Hg E) as (Hpre & Hne & Hc & Hack & Hd).
+  destruct o1 as [r| | | |]; cbn [and_then] in H.
+  - destruct (Hd r eq_refl) as (Ht & pre & Hs & Hl). subst t1.
+    assert (Hfinal :
+      (let '(tr', o0, rest') := run_script_rest (verify (Some (ReportState a su)) r) r1 in
+       (A ++ tr', o0, rest')) = (tr, o, rest) ->
+      (exists more, A = tr ++ more) /\ tr <> [] /\ o <> Crashed
+      /\ ((2 <= length tr)%nat -> nth_error s 0 = Some ack)
+      /\ (o = Done tt ->
+          tr = A /\ nth_error s (length A - 1) = Some (Rep (Some (ReportState a su))))).
+    { intros H'. rewrite rsr_verify_report in H'.
+      assert (Hs0 : (2 <= length A)%nat -> nth_error s 0 = Some ack) by exact Hack.
+      destruct (is_own_report a su r) eqn:Hr; injection H' as <- <- <-; rewrite app_nil_r.
+      - apply is_own_report_true in Hr.
+        split; [exists []; rewrite app_nil_r; reflexivity|].
+        split; [exact Hne|]. split; [discriminate|]. split; [exact Hs0|].
+        intros _. split; [reflexivity|].
+        rewrite Hs, nth_error_app_r by lia.
+        replace (_ - _)%nat with 0%nat by lia. cbn [nth_error]. subst r. reflexivity.
+      - split; [exists []; rewrite app_nil_r; reflexivity|].
+        split; [exact Hne|]. split; [discriminate|]. split; [exact Hs0|]. discriminate. }
+    destruct n as [|n']; [left; exact (Hfinal H)|].
+    rewrite omsg_eqb_report in H. destruct (is_own_report a fa r) eqn:Hf; [|left; exact (Hfinal H)].
+    right. clear Hfinal. destruct (run_script_rest (TL n') r1) as [[tr' o'] rest'] eqn:E2.
+    injection H as <- <- <-. apply is_own_report_true in Hf.
+    exists n', (pre ++ [Rep r]), r1, tr'.
+    split; [reflexivity|]. split; [|split; [|split; [reflexivity|split; [|split; [|exact E2]]]]].
+    + rewrite <- app_assoc. exact Hs.
+    + rewrite app_length. cbn [length]. lia.
+    + assert (Hp : (2 <= length A)%nat) by (rewrite attempt_msgs_length; cbn; lia).
+      specialize (Hack Hp). rewrite Hs in Hack.
+      destruct pre as [|x pre]; [cbn in Hl; lia|]. exact Hack.
+    + rewrite nth_error_app_r by lia. replace (_ - _)%nat with 0%nat by lia.
+      cbn [nth_error]. subst r. reflexivity.
+  - injection H as <- <- <-. left. repeat split; try congruence; assumption.
+  - injection H as <- <- <-. left. repeat split; try congruence; assumption.
+  - congruence.
+  - injection H as <- <- <-. left. repeat split; try congruence; assumption.
+Qed.
+
+Lemma attempt_msgs_nonempty : A <> [].
+Proof. intros H. pose proof (attempt_msgs_length a op items) as Hl. rewrite H in Hl. discriminate. Qed.
+
+Lemma attempt_msgs_split : A = map fst (attempt_conv a op items) ++ [QueryState a].
+Proof. apply attempt_msgs_conv. Qed.
+
+Lemma transfer_loop_shape n s tr o rest :
+  run_script_rest (TL n) s = (tr, o, rest) ->
+  exists ts, tr = concat ts /\ (1 <= length ts <= S n)%nat
+    /\ Forall (fun t => t <> [] /\ exists more, A = t ++ more) ts
+    /\ Forall (fun t => t = A) (removelast ts)
+    /\ o <> Crashed.
+Proof.
+  revert s tr o rest. induction n as [|n IH]; intros s tr o rest H;
+    destruct (transfer_loop_cases _ _ _ _ _ H)
+      as [(Hpre & Hne & Hc & _ & _) | (n' & pre & s' & tr' & Hn & Hs & Hl & Htr & _ & _ & H')];
+    try discriminate Hn.
+  - exists [tr]. cbn [concat removelast length]. rewrite app_nil_r.
+    repeat split; try lia; try assumption. repeat constructor; assumption. constructor.
+  - exists [tr]. cbn [concat removelast length]. rewrite app_nil_r.
+    repeat split; try lia; try assumption. repeat constructor; assumption. constructor.
+  - injection Hn as <-. destruct (IH _ _ _ _ H') as (ts & Hc1 & Hlen & Hall & Hrl & Hcr).
+    exists (A :: ts). split; [cbn [concat]; rewrite Htr, Hc1; reflexivity|].
+    split; [cbn [length]; lia|]. split.
+    + constructor; [|exact Hall]. split; [apply attempt_msgs_nonempty|].
+      exists []. rewrite app_nil_r. reflexivity.
+    + split; [|exact Hcr]. destruct ts as [|t ts]; [cbn in Hlen; lia|].
+      change (removelast (A :: t :: ts)) with (A :: removelast (t :: ts)).
+      constructor; [reflexivity | exact Hrl].
+Qed.
+
+(* nothing is sent after a request unless the reply to it was the own acknowledgement *)
+Lemma transfer_loop_ack n s tr o rest i :
+  run_script_rest (TL n) s = (tr, o, rest) ->
+  nth_error tr i = Some (RequestOperation a op) -> (S i < length tr)%nat ->
+  nth_error s i = Some ack.
+Proof.
+  revert s tr o rest i. induction n as [|n IH]; intros s tr o rest i H Hi Hlt;
+    destruct (transfer_loop_cases _ _ _ _ _ H)
+      as [([more Hpre] & Hne & Hc & Hack & _)
+         | (n' & pre & s' & tr' & Hn & Hs & Hl & Htr & Hp0 & _ & H')];
+    try discriminate Hn.
+  - assert (i = 0%nat).
+    { apply (attempt_msgs_req a op items i a op). rewrite Hpre, nth_error_app_l by lia. exact Hi. }
+    subst i. apply Hack. lia.
+  - assert (i = 0%nat).
+    { apply (attempt_msgs_req a op items i a op). rewrite Hpre, nth_error_app_l by lia. exact Hi. }
+    subst i. apply Hack. lia.
+  - injection Hn as <-. subst tr s. rewrite app_length in Hlt.
+    destruct (Nat.lt_ge_cases i (length A)) as [Hlo|Hhi].
+    + rewrite nth_error_app_l in Hi by exact Hlo.
+      apply attempt_msgs_req in Hi. subst i. rewrite nth_error_app_l by lia. exact Hp0.
+    + rewrite nth_error_app_r in Hi by exact Hhi.
+      rewrite nth_error_app_r by lia. rewrite Hl.
+      apply (IH _ _ _ _ _ H' Hi). lia.
+Qed.
+
+(* success is only reported after the own success report to the last query *)
+Lemma transfer_loop_success n s tr rest :
+  run_script_rest (TL n) s = (tr, Done tt, rest) ->
+  exists tr0, tr = tr0 ++ [QueryState a]
+    /\ nth_error s (length tr0) = Some (Rep (Some (ReportState a su))).
+Proof.
+  revert s tr rest. induction n as [|n IH]; intros s tr rest H;
+    destruct (transfer_loop_cases _ _ _ _ _ H)
+      as [(_ & _ & _ & _ & Hd)
+         | (n' & pre & s' & tr' & Hn & Hs & Hl & Htr & _ & _ & H')];
+    try discriminate Hn.
+  - destruct (Hd eq_refl) as [-> Hq]. exists (map fst (attempt_conv a op items)).
+    split; [apply attempt_msgs_split|].
+    rewrite attempt_msgs_length in Hq. rewrite map_length.
+    replace (S _ - 1)%nat with (length (attempt_conv a op items)) in Hq by lia. exact Hq.
+  - destruct (Hd eq_refl) as [-> Hq]. exists (map fst (attempt_conv a op items)).
+    split; [apply attempt_msgs_split|].
+    rewrite attempt_msgs_length in Hq. rewrite map_length.
+    replace (S _ - 1)%nat with (length (attempt_conv a op items)) in Hq by lia. exact Hq.
+  - injection Hn as <-. destruct (IH _ _ _ H') as (tr0 & Ht0 & Hq).
+    exists (A ++ tr0). split; [rewrite Htr, Ht0, app_assoc; reflexivity|].
+    rewrite Hs, app_length, nth_error_app_r by lia.
+    replace (_ - _)%nat with (length tr0) by lia. exact Hq.
+Qed.
+
+(* a further request is only sent right after the own failure report to the query *)
+Lemma transfer_loop_retry n s tr o rest i :
+  run_script_rest (TL n) s = (tr, o, rest) ->
+  nth_error tr (S i) = Some (RequestOperation a op) ->
+  nth_error tr i = Some (QueryState a)
+  /\ nth_error s i = Some (Rep (Some (ReportState a fa))).
+Proof.
+  revert s tr o rest i. induction n as [|n IH]; intros s tr o rest i H Hi;
+    destruct (transfer_loop_cases _ _ _ _ _ H)
+      as [([more Hpre] & Hne & Hc & Hack & _)
+         | (n' & pre & s' & tr' & Hn & Hs & Hl & Htr & _ & Hpl & H')];
+    try discriminate Hn.
+  - exfalso. assert (S i = 0%nat); [|lia].
+    apply (attempt_msgs_req a op items (S i) a op). rewrite Hpre.
+    rewrite nth_error_app_l by (apply nth_error_Some_lt in Hi; exact Hi). exact Hi.
+  - exfalso. assert (S i = 0%nat); [|lia].
+    apply (attempt_msgs_req a op items (S i) a op). rewrite Hpre.
+    rewrite nth_error_app_l by (apply nth_error_Some_lt in Hi; exact Hi). exact Hi.
+  - injection Hn as <-. subst tr s.
+    destruct (Nat.lt_ge_cases (S i) (length A)) as [Hlo|Hhi].
+    + exfalso. rewrite nth_error_app_l in Hi by exact Hlo.
+      apply attempt_msgs_req in Hi. lia.
+    + rewrite nth_error_app_r in Hi by exact Hhi.
+      destruct (Nat.eq_dec (S i) (length A)) as [He|Hne].
+      * rewrite !nth_error_app_l by lia. replace i with (length A - 1)%nat by lia.
+        split; [apply attempt_msgs_last | exact Hpl].
+      * replace (S i - length A)%nat with (S (i - length A)) in Hi by lia.
+        destruct (IH _ _ _ _ _ H' Hi) as [H1 H2].
+        rewrite !nth_error_app_r by lia. rewrite Hl. split; assumption.
+Qed.
+
+Lemma transfer_loop_head n s tr o rest :
+  run_script_rest (TL n) s = (tr, o, rest) -> nth_error tr 0 = Some (RequestOperation a op).
+Proof.
+  intros H. destruct (transfer_loop_cases _ _ _ _ _ H)
+      as [([more Hpre] & Hne & _) | (n' & pre & s' & tr' & _ & _ & _ & Htr & _)].
+  - pose proof (attempt_msgs_head a op items) as Hh. rewrite Hpre in Hh.
+    destruct tr; [congruence | exact Hh].
+  - subst tr. rewrite nth_error_app_l; [apply attempt_msgs_head|].
+    pose proof (attempt_msgs_length a op items). lia.
+Qed.
+
+End TransferLoop.
+
+Transparent attempt_msgs.
+
+(* ================================================================== *)
+(* 9. C09: statements on run_script                                    *)
+
+Lemma C09_chunks_lemma : forall b,
+  concat (chunks16 b) = b
+  /\ Forall (fun c => (1 <= length c <= 16)%nat) (chunks16 b)
+  /\ (forall i c, nth_error (chunks16 b) i = Some c ->
+        nth_error (chunk_msgs b) i = Some (SendData ((16 * N.of_nat i) mod 65536) c)).
+Proof.
+  intros b. split; [apply chunks16_concat|]. split; [apply chunks16_sizes|].
+  intros i c H. unfold chunk_msgs. rewrite chunk_msgs_from_nth, H. reflexivity.
+Qed.
+
+Lemma C09_chunk_sizes_lemma : forall b,
+  length (chunks16 b) = ((length b + 15) / 16)%nat
+  /\ (forall i c, nth_error (chunks16 b) i = Some c -> (S i < length (chunks16 b))%nat ->
+        length c = 16%nat)
+  /\ (forall i c, nth_error (chunks16 b) i = Some c -> (S i = length (chunks16 b))%nat ->
+        length c = (length b - 16 * i)%nat)
+  /\ (forall i c, nth_error (chunks16 b) i = Some c -> c = firstn 16 (skipn (16 * i) b)).
+Proof.
+  intros b. split; [apply chunks16_length|]. split; [apply chunks16_full|].
+  split; [apply chunks16_last | apply chunks16_nth].
+Qed.
+
+Lemma C09_offsets_nowrap_lemma : forall b i,
+  nlen b <= 65536 -> (i < length (chunks16 b))%nat ->
+  (16 * N.of_nat i) mod 65536 = 16 * N.of_nat i.
+Proof.
+  intros b i Hb Hi. rewrite chunks16_length in Hi. unfold nlen in Hb. apply N.mod_small. lia.
+Qed.
+
+Lemma transfer_rest a op items su fa script :
+  total_chunks items < 65536 ->
+  forall tr o, run_script (transfer a op items su fa) script = (tr, o) ->
+  exists rest, run_script_rest (transfer_loop 2 a op items su fa) script = (tr, o, rest)
+               /\ chunk_guard items.
+Proof.
+  intros Hg tr o H. apply chunk_guard_total in Hg.
+  destruct (run_script_rest_ex _ _ _ _ H) as [rest Hr]. exists rest. split; assumption.
+Qed.
+
+Lemma C09_trace_shape_lemma : forall a op items success failure script,
+  total_chunks items < 65536 ->
+  exists ts,
+    fst (run_script (transfer a op items success failure) script) = concat ts
+    /\ (1 <= length ts <= 3)%nat
+    /\ Forall (fun t => t <> [] /\ exists rest, attempt_msgs a op items = t ++ rest) ts
+    /\ Forall (fun t => t = attempt_msgs a op items) (removelast ts).
+Proof.
+  intros a op items su fa script Hg.
+  destruct (run_script (transfer a op items su fa) script) as [tr o] eqn:E.
+  destruct (transfer_rest _ _ _ _ _ _ Hg _ _ E) as (rest & Hr & Hg').
+  destruct (transfer_loop_shape _ _ _ _ _ Hg' _ _ _ _ _ Hr) as (ts & H1 & H2 & H3 & H4 & _).
+  exists ts. cbn [fst]. repeat split; try assumption; lia.
+Qed.
+
+Lemma C09_crash_only_beyond_16bit_lemma : forall a op items success failure script,
+  total_chunks items < 65536 ->
+  snd (run_script (transfer a op items success failure) script) <> Crashed.
+Proof.
+  intros a op items su fa script Hg.
+  destruct (run_script (transfer a op items su fa) script) as [tr o] eqn:E.
+  destruct (transfer_rest _ _ _ _ _ _ Hg _ _ E) as (rest & Hr & Hg').
+  destruct (transfer_loop_shape _ _ _ _ _ Hg' _ _ _ _ _ Hr) as (ts & _ & _ & _ & _ & Hc).
+  exact Hc.
+Qed.
+
+(* Nothing (in particular no SendData) follows a request unless the reply read for that request
+   was the own acknowledgement of the same operation. *)
+Lemma C09_ack_before_data_lemma : forall a op items success failure script tr o i,
+  total_chunks items < 65536 ->
+  run_script (transfer a op items success failure) script = (tr, o) ->
+  nth_error tr i = Some (RequestOperation a op) -> (S i < length tr)%nat ->
+  nth_error script i = Some (Rep (Some (AckOperation a op))).
+Proof.
+  intros a op items su fa script tr o i Hg E Hi Hlt.
+  destruct (transfer_rest _ _ _ _ _ _ Hg _ _ E) as (rest & Hr & Hg').
+  exact (transfer_loop_ack _ _ _ _ _ Hg' _ _ _ _ _ _ Hr Hi Hlt).
+Qed.
+
+(* Within (a prefix of) an attempt: the count comes after the request and all data messages,
+   the query comes last. *)
+Lemma data_msgs_are_data items m :
+  In m (concat (map chunk_msgs items)) -> exists off c, m = SendData off c.
+Proof.
+  intros H. apply in_concat in H. destruct H as (l & Hl & H). apply in_map_iff in Hl.
+  destruct Hl as (item & <- & _). unfold chunk_msgs in H. rewrite chunk_msgs_from_map in H.
+  apply in_map_iff in H. destruct H as (ic & <- & _). eauto.
+Qed.
+
+Lemma C09_prefix_order_lemma : forall a op items t rest,
+  attempt_msgs a op items = t ++ rest ->
+  (forall j n, nth_error t j = Some (DataChunksSent n) ->
+     firstn j t = RequestOperation a op :: concat (map chunk_msgs items))
+  /\ (forall j a', nth_error t j = Some (QueryState a') ->
+     t = attempt_msgs a op items /\ S j = length t).
+Proof.
+  intros a op items t rest Ht.
+  set (D := concat (map chunk_msgs items)) in *.
+  assert (HA : attempt_msgs a op items
+               = (RequestOperation a op :: D) ++ [DataChunksSent (N.of_nat (length D)); QueryState a]).
+  { unfold attempt_msgs. fold D. cbn [app]. reflexivity. }
+  assert (Hpos : forall j m, nth_error (attempt_msgs a op items) j = Some m ->
+             (forall off c, m <> SendData off c) -> (forall a' o', m <> RequestOperation a' o') ->
+             (j = S (length D) /\ m = DataChunksSent (N.of_nat (length D)))
+             \/ (j = S (S (length D)) /\ m = QueryState a)).
+  { intros j m Hj Hnd Hnr. rewrite HA in Hj.
+    destruct (Nat.lt_ge_cases j (length (RequestOperation a op :: D))) as [Hlo|Hhi].
+    - rewrite nth_error_app_l in Hj by exact Hlo. destruct j as [|j]; cbn [nth_error] in Hj.
+      + inversion Hj; subst. exfalso. eapply Hnr. reflexivity.
+      + apply nth_error_In in Hj. apply data_msgs_are_data in Hj.
+        destruct Hj as (off & c & ->). exfalso. eapply Hnd. reflexivity.
+    - rewrite nth_error_app_r in Hj by exact Hhi. cbn [length] in *.
+      destruct (j - S (length D))%nat as [|[|k]] eqn:Ek; cbn [nth_error] in Hj.
+      + left. inversion Hj. split; [lia | reflexivity].
+      + right. inversion Hj. split; [lia | reflexivity].
+      + destruct k; discriminate. }
+  split.
+  - intros j n Hj. assert (Hlt := nth_error_Some_lt _ _ _ Hj).
+    assert (HjA : nth_error (attempt_msgs a op items) j = Some (DataChunksSent n))
+      by (rewrite Ht, nth_error_app_l by exact Hlt; exact Hj).
+    destruct (Hpos _ _ HjA) as [[Hj' _]|[_ Hq]]; try discriminate.
+    replace (firstn j t) with (firstn j (t ++ rest)).
+    + rewrite <- Ht, HA, Hj'.
+      replace (S (length D)) with (length (RequestOperation a op :: D) + 0)%nat
+        by (cbn [length]; lia).
+      rewrite firstn_app_2. cbn [firstn]. apply app_nil_r.
+    + rewrite firstn_app. replace (j - length t)%nat with 0%nat by lia.
+      cbn [firstn]. apply app_nil_r.
+  - intros j a' Hj. assert (Hlt := nth_error_Some_lt _ _ _ Hj).
+    assert (HjA : nth_error (attempt_msgs a op items) j = Some (QueryState a'))
+      by (rewrite Ht, nth_error_app_l by exact Hlt; exact Hj).
+    destruct (Hpos _ _ HjA) as [[_ Hq]|[Hj' _]]; try discriminate.
+    assert (Hlen : length (attempt_msgs a op items) = S (S (S (length D)))).
+    { rewrite HA, app_length. cbn [length]. lia. }
+    assert (Hl2 : (length t + length rest = S (S (S (length D))))%nat)
+      by (rewrite <- Hlen, Ht, app_length; reflexivity).
+    assert (rest = []) by (destruct rest; [reflexivity | cbn [length] in Hl2; lia]).
+    subst rest. rewrite app_nil_r in Ht. split; [symmetry; exact Ht | lia].
+Qed.
+
+Definition is_send_data (m : msg) : bool :=
+  match m with SendData _ _ => true | _ => false end.
+
+Lemma filter_all {A} (f : A -> bool) l : (forall x, In x l -> f x = true) -> filter f l = l.
+Proof.
+  induction l as [|x l IH]; intros H; [reflexivity|]. cbn [filter].
+  rewrite (H x (or_introl eq_refl)). f_equal. apply IH. intros y Hy. apply H. right. exact Hy.
+Qed.
+
+Lemma C09_count_lemma : forall a op items n,
+  In (DataChunksSent n) (attempt_msgs a op items) ->
+  n = N.of_nat (length (filter is_send_data (attempt_msgs a op items)))
+  /\ n = total_chunks items
+  /\ (total_chunks items < 65536 -> n mod 65536 = n).
+Proof.
+  intros a op items n Hin.
+  set (D := concat (map chunk_msgs items)).
+  assert (Hn : n = N.of_nat (length D)).
+  { unfold attempt_msgs in Hin. fold D in Hin. cbn [app] in Hin.
+    destruct Hin as [Hin|Hin]; [discriminate|]. apply in_app_or in Hin.
+    destruct Hin as [Hin|Hin].
+    - apply data_msgs_are_data in Hin. destruct Hin as (off & c & Hin). discriminate.
+    - cbn in Hin. destruct Hin as [Hin|[Hin|[]]]; [inversion Hin; reflexivity | discriminate]. }
+  assert (Hf : filter is_send_data (attempt_msgs a op items) = D).
+  { unfold attempt_msgs. fold D. cbn [app filter is_send_data]. rewrite filter_app.
+    cbn [filter is_send_data]. rewrite app_nil_r. apply filter_all.
+    intros m Hm. apply data_msgs_are_data in Hm. destruct Hm as (off & c & ->). reflexivity. }
+  rewrite Hf. split; [exact Hn|]. split.
+  - rewrite Hn. apply total_chunks_msgs.
+  - intros Hg. apply N.mod_small. rewrite Hn. unfold D. rewrite total_chunks_msgs. exact Hg.
+Qed.
+
+Lemma C09_config_block_lemma : forall a t,
+  configure a t = (ensure_unconfigured a ;;;
+                   transfer a ReceiveConfig [st_to_bytes t] ConfigReceived ConfigFailed)
+  /\ length (st_to_bytes t) = 16%nat
+  /\ chunk_msgs (st_to_bytes t) = [SendData 0 (st_to_bytes t)]
+  /\ attempt_msgs a ReceiveConfig [st_to_bytes t]
+     = [RequestOperation a ReceiveConfig; SendData 0 (st_to_bytes t); DataChunksSent 1;
+        QueryState a]
+  /\ total_chunks [st_to_bytes t] = 1.
+Proof.
+  intros a t. split; [reflexivity|]. destruct t; repeat split; reflexivity.
+Qed.
+
+Lemma C09_send_pages_items_lemma : forall a pages script,
+  send_pages a pages
+  = (transfer a ReceivePixels (map p_bytes pages) PixelsReceived PixelsFailed ;;;
+     expect (PixelsComplete a) None ;;;
+     r <- send (QueryState a) ;;
+     match r with
+     | Some (ReportState a' ShowingPages) => if a' =? a then Ret Automatic else Ret Manual
+     | _ => Ret Manual
+     end)
+  /\ exists more,
+       fst (run_script (send_pages a pages) script)
+       = fst (run_script (transfer a ReceivePixels (map p_bytes pages) PixelsReceived
+                                   PixelsFailed) script) ++ more
+       /\ ((forall x, snd (run_script (transfer a ReceivePixels (map p_bytes pages)
+                                 PixelsReceived PixelsFailed) script) <> Done x) -> more = []).
+Proof.
+  intros a pages script. split; [reflexivity|].
+  unfold send_pages. rewrite run_script_bind. rewrite <- run_script_rest_fst.
+  destruct (run_script_rest (transfer a ReceivePixels (map p_bytes pages) PixelsReceived
+                                      PixelsFailed) script) as [[tr o] rest].
+  cbn [fst snd]. destruct o.
+  2-5: exists []; rewrite app_nil_r; split; reflexivity.
+  match goal with |- context [run_script ?p rest] => destruct (run_script p rest) as [tr' o'] end.
+  exists tr'. cbn [fst]. split; [reflexivity|]. intros H. exfalso. apply (H a0). reflexivity.
+Qed.
+
+(* ================================================================== *)
+(* 10. C11                                                             *)
+
+(* --- fail-stop (any program) --- *)
+Lemma C11_fail_stop_lemma : forall (A : Type) (p : prog A) script tr o,
+  run_script p script = (tr, o) -> o <> Blocked ->
+  (length tr <= length script)%nat
+  /\ run_script p (firstn (length tr) script) = (tr, o)
+  /\ (In BusErr (firstn (length tr) script) -> o = BusFailed)
+  /\ (o = BusFailed -> nth_error script (length tr - 1) = Some BusErr).
+Proof. intros A p script tr o. apply fail_stop_gen. Qed.
+
+Lemma C11_blocked_lemma : forall (A : Type) (p : prog A) script tr,
+  run_script p script = (tr, Blocked) ->
+  length tr = S (length script) /\ ~ In BusErr script.
+Proof.
+  intros A p script tr H. split; [exact (run_script_blocked_length _ _ _ H)|].
+  revert script tr H. induction p as [a| | |m k IH]; intros script tr H; try discriminate.
+  destruct script as [|[|r] script']; cbn [run_script] in H.
+  - intros [].
+  - discriminate.
+  - destruct (run_script (k r) script') as [tr' o'] eqn:E. inversion H; subst.
+    intros [Hi|Hi]; [discriminate | exact (IH _ _ _ E Hi)].
+Qed.
+
+(* --- success is confirmed --- *)
+Lemma run_script_bind_Done {A B} (p : prog A) (f : A -> prog B) script tr v :
+  run_script (bind p f) script = (tr, Done v) ->
+  exists x t1 t2 pre r1,
+    script = pre ++ r1 /\ length pre = length t1
+    /\ run_script_rest p script = (t1, Done x, r1)
+    /\ run_script (f x) r1 = (t2, Done v) /\ tr = t1 ++ t2.
+Proof.
+  rewrite run_script_bind. destruct (run_script_rest p script) as [[t1 o1] r1] eqn:E.
+  destruct o1 as [x| | | |]; try discriminate.
+  destruct (run_script (f x) r1) as [t2 o2] eqn:E2. intros H. inversion H; subst.
+  destruct (run_script_rest_consumed _ _ _ _ _ E) as [Hc _].
+  destruct Hc as [Hs Hl]; [discriminate|].
+  exists x, t1, t2, (firstn (length t1) script), r1.
+  repeat split; try assumption. rewrite firstn_length. lia.
+Qed.
+
+Lemma C11_confirmed_success_transfer_lemma : forall a op items success failure script tr,
+  total_chunks items < 65536 ->
+  run_script (transfer a op items success failure) script = (tr, Done tt) ->
+  exists tr0, tr = tr0 ++ [QueryState a]
+    /\ nth_error script (length tr0) = Some (Rep (Some (ReportState a success))).
+Proof.
+  intros a op items su fa script tr Hg E.
+  destruct (transfer_rest _ _ _ _ _ _ Hg _ _ E) as (rest & Hr & Hg').
+  exact (transfer_loop_success _ _ _ _ _ Hg' _ _ _ _ Hr).
+Qed.
+
+Lemma config_guard t : total_chunks [st_to_bytes t] < 65536.
+Proof. destruct t; vm_compute; reflexivity. Qed.
+
+Lemma C11_confirmed_success_configure_lemma : forall a t script tr,
+  run_script (configure a t) script = (tr, Done tt) ->
+  exists tr0, tr = tr0 ++ [QueryState a]
+    /\ nth_error script (length tr0) = Some (Rep (Some (ReportState a ConfigReceived))).
+Proof.
+  intros a t script tr H. unfold configure in H.
+  apply run_script_bind_Done in H.
+  destruct H as (x & t1 & t2 & pre & r1 & Hs & Hl & _ & H2 & Htr).
+  destruct (C11_confirmed_success_transfer_lemma _ _ _ _ _ _ _ (config_guard t) H2)
+    as (tr0 & Ht0 & Hq).
+  exists (t1 ++ tr0). split; [rewrite Htr, Ht0, app_assoc; reflexivity|].
+  rewrite Hs, app_length, nth_error_app_r by lia.
+  replace (_ - _)%nat with (length tr0) by lia. exact Hq.
+Qed.
+
+Lemma send_pages_style a (r : option msg) :
+  match r with
+  | Some (ReportState a' ShowingPages) => if a' =? a then Ret Automatic else Ret Manual
+  | _ => Ret Manual
+  end = Ret (if is_own_report a ShowingPages r then Automatic else Manual).
+Proof.
+  destruct r as [m|]; [|reflexivity]. destruct m; try reflexivity.
+  cbn [is_own_report]. destruct s; cbn [same_state];
+    rewrite ?andb_false_r, ?andb_true_r; try reflexivity.
+  destruct (a0 =? a); reflexivity.
+Qed.
+
+Lemma C11_confirmed_success_send_pages_lemma : forall a pages script tr style,
+  total_chunks (map p_bytes pages) < 65536 ->
+  run_script (send_pages a pages) script = (tr, Done style) ->
+  exists tr0 r,
+    tr = tr0 ++ [QueryState a; PixelsComplete a; QueryState a]
+    /\ nth_error script (length tr0) = Some (Rep (Some (ReportState a PixelsReceived)))
+    /\ nth_error script (S (length tr0)) = Some (Rep None)
+    /\ nth_error script (S (S (length tr0))) = Some (Rep r)
+    /\ style = (if is_own_report a ShowingPages r then Automatic else Manual).
+Proof.
+  intros a pages script tr style Hg H. unfold send_pages in H.
+  apply run_script_bind_Done in H.
+  destruct H as ([] & t1 & t2 & pre & r1 & Hs & Hl & H1 & H2 & Htr).
+  apply run_script_rest_eq in H1.
+  destruct (C11_confirmed_success_transfer_lemma _ _ _ _ _ _ _ Hg H1) as (tr0 & Ht0 & Hq).
+  apply run_script_bind_Done in H2.
+  destruct H2 as ([] & t3 & t4 & pre2 & r2 & Hs2 & Hl2 & H3 & H4 & Ht2).
+  rewrite rsr_expect_none in H3.
+  destruct r1 as [|[|x] r1]; [discriminate H3 | discriminate H3 |].
+  rewrite expect_seq_step_rep in H3. destruct (is_none x) eqn:Hx; [|discriminate H3].
+  rewrite expect_seq_nil in H3. injection H3 as <- <-. apply is_none_true in Hx. subst x.
+  destruct r1 as [|[|y] r1]; cbn [bind send run_script] in H4; try discriminate H4.
+  rewrite send_pages_style in H4. cbn [run_script] in H4. injection H4 as <- <-.
+  assert (Hlen : length t1 = S (length tr0)) by (rewrite Ht0, app_length; cbn; lia).
+  exists tr0, y. split; [rewrite Htr, Ht2, Ht0, <- app_assoc; reflexivity|].
+  split; [|split; [|split; [|reflexivity]]].
+  - rewrite Hs, nth_error_app_l by lia.
+    rewrite Hs, nth_error_app_l in Hq by lia. exact Hq.
+  - rewrite Hs, nth_error_app_r by lia. replace (_ - _)%nat with 0%nat by lia. reflexivity.
+  - rewrite Hs, nth_error_app_r by lia. replace (_ - _)%nat with 1%nat by lia. reflexivity.
+Qed.
+
+(* --- bounded retries --- *)
+Definition is_request (a : N) (op : operation) (m : msg) : bool :=
+  match m with
+  | RequestOperation a' op' => (a' =? a) && same_operation op' op
+  | _ => false
+  end.
+
+Lemma is_request_true a op m : is_request a op m = true <-> m = RequestOperation a op.
+Proof.
+  split.
+  - destruct m; try discriminate. cbn [is_request]. intros H.
+    apply andb_true_iff in H. destruct H as [Ha Ho]. apply N.eqb_eq in Ha.
+    apply same_operation_spec in Ho. subst. reflexivity.
+  - intros ->. cbn [is_request]. rewrite N.eqb_refl, same_operation_refl. reflexivity.
+Qed.
+
+Lemma filter_head_only {A} (f : A -> bool) (l : list A) :
+  (forall i x, nth_error l i = Some x -> f x = true -> i = 0%nat) ->
+  (length (filter f l) <= 1)%nat.
+Proof.
+  intros H. destruct l as [|x l]; [cbn; lia|].
+  assert (Hl : filter f l = []).
+  { destruct (filter f l) as [|y t] eqn:E; [reflexivity|]. exfalso.
+    assert (Hy : In y (filter f l)) by (rewrite E; left; reflexivity).
+    apply filter_In in Hy. destruct Hy as [Hy Hfy]. apply In_nth_error in Hy.
+    destruct Hy as [j Hj]. specialize (H (S j) y Hj Hfy). discriminate. }
+  cbn [filter]. destruct (f x); rewrite Hl; cbn; lia.
+Qed.
+
+Lemma C11_bounded_retries_lemma : forall a op items success failure script tr o,
+  total_chunks items < 65536 ->
+  run_script (transfer a op items success failure) script = (tr, o) ->
+  (length (filter (is_request a op) tr) <= 3)%nat
+  /\ nth_error tr 0 = Some (RequestOperation a op)
+  /\ (forall i, nth_error tr (S i) = Some (RequestOperation a op) ->
+        nth_error tr i = Some (QueryState a)
+        /\ nth_error script i = Some (Rep (Some (ReportState a failure)))).
+Proof.
+  intros a op items su fa script tr o Hg E.
+  destruct (transfer_rest _ _ _ _ _ _ Hg _ _ E) as (rest & Hr & Hg').
+  split; [|split].
+  - destruct (transfer_loop_shape _ _ _ _ _ Hg' _ _ _ _ _ Hr) as (ts & Hc & Hlen & Hall & _).
+    subst tr. apply Nat.le_trans with (length ts); [|lia]. clear -Hall.
+    induction Hall as [|t ts [_ [more Ht]] _ IH]; [cbn; lia|].
+    cbn [concat length]. rewrite filter_app, app_length.
+    assert (length (filter (is_request a op) t) <= 1)%nat; [|lia].
+    apply filter_head_only. intros i x Hi Hx. apply is_request_true in Hx. subst x.
+    apply (attempt_msgs_req a op items i a op). rewrite Ht.
+    rewrite nth_error_app_l by (apply nth_error_Some_lt in Hi; exact Hi). exact Hi.
+  - exact (transfer_loop_head _ _ _ _ _ Hg' _ _ _ _ _ Hr).
+  - intros i Hi. exact (transfer_loop_retry _ _ _ _ _ Hg' _ _ _ _ _ _ Hr Hi).
+Qed.
